@@ -35,6 +35,7 @@ OUTCOMES = (
     "icmp+reply",  # ICMP error and a reply in the same loop iteration
     "cancel",  # the caller cancels the call while it waits
     "empty-reply",  # a zero-length datagram is a reply too
+    "send-error",  # the OS refuses the datagram: error_received() is called from inside sendto()
 )
 REQUEST = bytes.fromhex("302602010104067075626c6963a01902047f000001020100020100300b300906052b060102010500")
 REPLY = b"\x30\x03reply-%d"
@@ -107,6 +108,11 @@ def make_run(retries, timeout):
                 at(now + delta, lambda: task.cancel())
             elif o == "empty-reply":
                 at(now + delta, lambda: tr.inject_datagram(b""))
+            elif o == "send-error":
+                # what asyncio's datagram transport does when send() raises
+                # (EMSGSIZE, ENETUNREACH ...): synchronously, before sendto()
+                # returns to connection_made()
+                tr.inject_error(OSError(90, "Message too long"))
 
         def tie_break(due):
             mine_first = sorted([h for h in due if h in injected and h not in after], key=order.get)
@@ -165,7 +171,7 @@ def judge(retries, timeout, delta, chosen, result, exc, done_at, task_done, send
     out = []
     ename = type(exc).__name__ if isinstance(exc, BaseException) else exc
     facts = {"retries": retries, "timeout": timeout, "outcomes": list(chosen), "exception": ename, "result": result, "done_at": done_at, "sends": len(sends),
-             "os_error_outcome": any(o in ("icmp", "lost", "icmp+reply") for o in chosen)}
+             "os_error_outcome": any(o in ("icmp", "lost", "icmp+reply", "send-error") for o in chosen)}
 
     def bad(kind, **detail):
         out.append({"kind": kind, "detail": {**facts, **detail}, "facts": facts})
@@ -206,10 +212,10 @@ def judge(retries, timeout, delta, chosen, result, exc, done_at, task_done, send
             if not last or ename != "cancelled" or done_at != start + delta:
                 bad("cancellation-not-honoured-at-once", attempt=i)
             return out
-        elif o in ("icmp", "lost", "icmp+reply"):
+        elif o in ("icmp", "lost", "icmp+reply", "send-error"):
             # no result prescribed: propagate the OS error or count as unanswered
             if last and isinstance(exc, OSError):
-                if done_at != start + delta:
+                if done_at != start + (0 if o == "send-error" else delta):
                     bad("os-error-at-wrong-instant", attempt=i)
                 return out
         # unanswered attempt
@@ -251,7 +257,7 @@ def run_loopback(acc):
         acc.extra["loopback_pass"] = "skipped: %s" % (doc.get("skipped") or "no output")
         acc.count(evaluations=1, nontrivial=0)
         return
-    index = {"reply": 0, "none": 1, "two-replies": 5, "icmp": 6}
+    index = {"reply": 0, "none": 1, "two-replies": 5, "icmp": 6, "send-error": OUTCOMES.index("send-error")}
     disagreements = []
     for r in doc["results"]:
         seq, retries = r["sequence"], r["retries"]
